@@ -1,5 +1,6 @@
 """Black-box leg for the parts of task.rs the scripted executor bypasses (run_task, read_depfile):
 real n2 binary, real /bin/sh commands.  Used by C09 and C15."""
+import collections
 import shutil
 import tempfile
 
@@ -17,6 +18,173 @@ def write(d, name, text, mtime=None):
     open(p, "w").write(text)
     if mtime is not None:
         os.utime(p, (mtime, mtime))
+
+
+NOTE = b"Note: including file: "
+
+
+def split_notes(c):
+    """what C09 says about the whole output of a deps = msvc command: (files reported, text shown)"""
+    src = c.split(b"\n")
+    want_out = b"\n".join(l for l in src if not l.startswith(NOTE))
+    want_incs = []
+    for l in src:
+        if l.startswith(NOTE):
+            p = l[len(NOTE):]
+            core = p[:-1] if p.endswith(b"\r") else p
+            st = p.lstrip(b" ")
+            if st == b"":
+                want_incs.append(core)
+            else:
+                want_incs.append(st[:-1] if p.endswith(b"\r") else st)
+    return want_incs, want_out
+
+
+def read_db(path):
+    """[(outs, deps)] of every build record of an .n2_db, names resolved (format of db.rs, version 1)"""
+    b = open(path, "rb").read()
+    if b[:4] != b"n2db":
+        return None
+    i, names, recs = 8, [], []
+    while i + 2 <= len(b):
+        m = int.from_bytes(b[i:i + 2], "little")
+        i += 2
+        if m & 0x8000:
+            no = m & 0x7fff
+            outs = [int.from_bytes(b[i + 3 * k:i + 3 * k + 3], "little") for k in range(no)]
+            i += 3 * no
+            nd = int.from_bytes(b[i:i + 2], "little")
+            i += 2
+            deps = [int.from_bytes(b[i + 3 * k:i + 3 * k + 3], "little") for k in range(nd)]
+            i += 3 * nd + 8
+            recs.append(([names[x] if x < len(names) else None for x in outs], [names[x] if x < len(names) else None for x in deps]))
+        else:
+            names.append(b[i:i + m])
+            i += m
+    return recs
+
+
+CL_PY = r"""#!/usr/bin/env python3
+# fake cl: replays a plan of timed writes (hex stream delay_ms per line), then creates $1 and exits with the plan's code
+import os, sys, time
+code = 0
+for l in open(os.environ.get("PLAN", "plan.txt")):
+    w = l.split()
+    if w[0] == "exit":
+        code = int(w[1]); continue
+    data = bytes.fromhex(w[0]) if w[0] != "-" else b""
+    while data:
+        n = os.write(int(w[1]), data)
+        data = data[n:]
+    if int(w[2]):
+        time.sleep(int(w[2]) / 1000.0)
+if code == 0:
+    open(sys.argv[1], "w").write("obj\n")
+sys.exit(code)
+"""
+
+
+def gen_cl_output(rng, kind):
+    """(lines, writes): the text a fake compiler prints and how it is cut into write() calls"""
+    nhdr = {"small": rng.randint(1, 4), "big": rng.randint(120, 260), "huge": rng.randint(2500, 3500)}.get(kind, rng.randint(1, 6))
+    hdrs = ["inc/hdr_%d_zz.h" % i for i in range(nhdr)]
+    lines = []
+    for i, h in enumerate(hdrs):
+        hs = rng.choice([h, h, h, "./" + h, "inc/../" + h, ".//" + h, "inc//" + h[4:]]) if kind != "huge" else h
+        lines.append(NOTE + b" " * rng.choice([0, 0, 1, 3]) + hs.encode() + rng.choice([b"", b"", b"\r"]))
+        if rng.random() < (0.3 if kind != "huge" else 0.02):
+            lines.append(rng.choice([b"in.c(%d): warning C4100: 'x' unreferenced" % i, b"in.c", b"", b"  Note: not an include", b"Note: something else"]))
+        if rng.random() < 0.1:
+            lines.append(NOTE + hdrs[rng.randrange(i + 1)].encode())       # a header reported twice
+    text = b"\n".join(lines) + b"\n"
+    writes = []
+    if kind == "split":
+        # every write boundary falls inside a line, most inside a note's prefix or file name
+        pos = 0
+        while pos < len(text):
+            n = rng.randint(1, 40)
+            writes.append((text[pos:pos + n], rng.choice([1, 2]), rng.choice([0, 0, 30])))
+            pos += n
+    else:
+        # line-at-a-time like a real compiler, or one large write
+        if rng.random() < 0.5:
+            writes.append((text, 1, 0))
+        else:
+            for l in text.split(b"\n")[:-1]:
+                writes.append((l + b"\n", 1, 0))
+    return hdrs, text, writes
+
+
+def showincludes_random_leg(run, n2, rng, rounds):
+    """deps = msvc through the real run_task: arbitrary chunking and sizes of the command's output"""
+    stats = collections.Counter()
+    for kind in (["small", "split", "big", "split", "big"] + ["huge"] * (1 if rounds > 5 else 0) + [rng.choice(["small", "split", "big"]) for _ in range(max(0, rounds - 5))])[:max(rounds, 5)]:
+        d = tempfile.mkdtemp(prefix="n2verif-task-%d-" % os.getpid())
+        try:
+            stats[kind] += 1
+            hdrs, text, writes = gen_cl_output(rng, kind)
+            fail = rng.random() < 0.25
+            write(d, "cl.py", CL_PY)
+            os.chmod(os.path.join(d, "cl.py"), 0o755)
+            write(d, "build.ninja", "rule cl\n  command = ./cl.py $out\n  deps = msvc\nbuild out.obj: cl in.c\n")
+            write(d, "in.c", "int x;\n", 1000000000)
+            for h in hdrs:
+                write(d, h, "h\n", 1000000000)
+            plan = "".join("%s %d %d\n" % (w.hex() or "-", fd, ms) for w, fd, ms in writes)
+            write(d, "plan.txt", plan + ("exit 3\n" if fail else ""))
+            want_incs, want_out = split_notes(text)
+            uniq = []
+            for x in want_incs:
+                x = lex_canon(x.decode()).encode()          # whatever spelling the compiler printed, one node per location
+                if x not in uniq:
+                    uniq.append(x)
+            where = {"project": "deps=msvc step; fake cl replays plan.txt (hex fd delay_ms)", "kind": kind, "plan": plan[:4000], "command_fails": fail,
+                     "output_bytes": len(text), "writes": len(writes)}
+            rc, out = n2run(n2, d, ["out.obj"])
+            outb = out.encode("utf-8", "replace")
+            if b"Note: including file" in outb or b"_zz.h" in outb:
+                frag = outb[max(0, outb.find(b"_zz.h") - 40):][:120] if b"_zz.h" in outb else outb[outb.find(b"Note: incl"):][:120]
+                run.report_failure(None, "/showIncludes text shown to the user (%s output of %d bytes in %d writes, command %s): %r" % (
+                    kind, len(text), len(writes), "fails" if fail else "succeeds", frag), where)
+            shown = [l for l in want_out.split(b"\n") if l.strip()]
+            pos = 0
+            for l in shown:
+                k = outb.find(l.rstrip(b"\r"), pos)
+                if k < 0:
+                    run.report_failure(None, "a line of the command's remaining output was not shown (or out of order): %r" % l[:80], where)
+                    break
+                pos = k + len(l.rstrip(b"\r"))
+            if fail:
+                if rc == 0:
+                    run.report_failure(None, "failing msvc step reported success", where)
+                # make it succeed now with the same output
+                write(d, "plan.txt", plan)
+                rc, out = n2run(n2, d, ["out.obj"])
+            if rc != 0 or "ran 1 task" not in out:
+                run.report_failure(None, "msvc-deps step did not build: rc=%d %s" % (rc, out[-200:]), where)
+                continue
+            recs = read_db(os.path.join(d, ".n2_db")) or []
+            mine = [deps for outs, deps in recs if outs == [b"out.obj"]]
+            if not mine:
+                run.report_failure(None, "no record of the step in .n2_db after its successful run", where)
+            elif mine[-1] != uniq:
+                missing = [x for x in uniq if x not in mine[-1]]
+                extra = [x for x in mine[-1] if x not in uniq]
+                run.report_failure(None, "dependencies recorded for a deps=msvc step differ from the files its output reported (%s output, %d bytes, %d writes): %d missing %r, %d unexpected %r" % (
+                    kind, len(text), len(writes), len(missing), missing[:3], len(extra), extra[:3]), where)
+            rc, out = n2run(n2, d, ["out.obj"])
+            if "no work to do" not in out:
+                run.report_failure(None, "second build is not a null build: %r" % out[-200:], where)
+                continue
+            for h in rng.sample(hdrs, min(2, len(hdrs))):
+                write(d, h, "h2\n", 1000000100 + rng.randint(0, 1000))
+                rc, out = n2run(n2, d, ["out.obj"])
+                if "ran 1 task" not in out:
+                    run.report_failure(None, "editing %s, reported through /showIncludes, did not rebuild the step: %r" % (h, out[-200:]), where)
+                    break
+        finally:
+            shutil.rmtree(d, ignore_errors=True)
+    return dict(stats)
 
 
 def showincludes_leg(run, n2):
@@ -110,3 +278,91 @@ def depfile_leg(run, n2):
             run.report_failure(None, "malformed depfile: expected the step to fail with a parse error naming out.o.d, got rc=%d %r" % (rc, out[-300:]), where)
     finally:
         shutil.rmtree(d, ignore_errors=True)
+
+
+def lex_canon(p):
+    out = []
+    for c in p.split("/"):
+        if c in ("", "."):
+            continue
+        if c == ".." and out and out[-1] != "..":
+            out.pop()
+        else:
+            out.append(c)
+    return "/".join(out)
+
+
+def depfile_random_leg(run, n2, rng, rounds):
+    """depfiles with several rules, target spellings and formattings through the real run_task/read_depfile: the step's record
+    lists exactly the prerequisites of all targets, each location once"""
+    stats = collections.Counter()
+    for _ in range(rounds):
+        d = tempfile.mkdtemp(prefix="n2verif-task-%d-" % os.getpid())
+        try:
+            multi = rng.random() < 0.4
+            outs = ["out.o", "out.aux"] if multi else ["out.o"]
+            hdrs = ["h%d.h" % i for i in range(6)] + ["inc/k%d.h" % i for i in range(3)]
+            tspell = ["out.o", "out.o", "./out.o", "obj/../out.o", "other.o", "gen.stamp"] + (["out.aux", "./out.aux"] if multi else [])
+            rules = []
+            for _ in range(rng.randint(1, 4)):
+                t = rng.choice(tspell)
+                ps = []
+                for _ in range(rng.randint(0, 4)):
+                    h = rng.choice(hdrs)
+                    ps.append(rng.choice([h, h, "./" + h, "x/../" + h, ".//" + h]))
+                if rng.random() < 0.2:
+                    ps.insert(0, "in.c")
+                rules.append((t, ps))
+            text = ""
+            for t, ps in rules:
+                sep = rng.choice([" ", " \\\n  ", "  "])
+                # (a colon directly followed by a name is read as part of a Windows-style path, by Ninja too: keep a space after it)
+                text += t + rng.choice([": ", " : ", ":  "]) + sep.join([""] + ps if rng.random() < 0.5 else ps) + rng.choice(["\n", "\n\n", " \n"])
+            if rng.random() < 0.3:
+                text = text.rstrip("\n")
+            order = []
+            for t, ps in rules:
+                if t not in order:
+                    order.append(t)
+            want = []
+            for t in order:
+                for t2, ps in rules:
+                    if t2 == t:
+                        for p_ in ps:
+                            c = lex_canon(p_)
+                            if c != "in.c" and c not in want:
+                                want.append(c)
+            write(d, "cc.sh", "#!/bin/sh\n# fake cc: writes $1.d from deps.txt, then every output\ncp deps.txt $1.d\nfor o in \"$@\"; do cat in.c > $o; done\n")
+            os.chmod(os.path.join(d, "cc.sh"), 0o755)
+            write(d, "build.ninja", "rule cc\n  command = ./cc.sh $out\n  depfile = out.o.d\nbuild %s: cc in.c\n" % " ".join(outs))
+            write(d, "in.c", "int x;\n", 1000000000)
+            for h in hdrs:
+                write(d, h, "h\n", 1000000000)
+            write(d, "deps.txt", text)
+            where = {"project": "depfile step; fake cc copies deps.txt to out.o.d", "depfile": text, "outputs": outs}
+            stats["rules_%d" % len(rules)] += 1
+            stats["targets_spelled_differently"] += int(len({t for t, _ in rules}) > 1)
+            rc, out = n2run(n2, d, ["out.o"])
+            if rc != 0:
+                run.report_failure(None, "depfile step failed: %s" % out[-300:], where)
+                continue
+            recs = read_db(os.path.join(d, ".n2_db")) or []
+            mine = [deps for o_, deps in recs if o_ and o_[0] == b"out.o"]
+            got = [x.decode() for x in mine[-1]] if mine else None
+            if got is None:
+                run.report_failure(None, "no record of the step in .n2_db after its successful run", where)
+            elif got != want:
+                run.report_failure(None, "dependencies recorded from the depfile %r, expected the prerequisites of all targets %r" % (got, want), where)
+            rc, out = n2run(n2, d, ["out.o"])
+            if "no work to do" not in out:
+                run.report_failure(None, "second build is not a null build: %r" % out[-200:], where)
+                continue
+            for h in rng.sample(want, min(2, len(want))):
+                write(d, h, "h2\n", 1000000100 + rng.randint(0, 1000))
+                rc, out = n2run(n2, d, ["out.o"])
+                if "ran 1 task" not in out:
+                    run.report_failure(None, "editing %s, a prerequisite listed in the depfile, did not rebuild the step: %r" % (h, out[-200:]), where)
+                    break
+        finally:
+            shutil.rmtree(d, ignore_errors=True)
+    return dict(stats)
